@@ -467,3 +467,52 @@ TRUSTED_BASE = [
     "C++ harness + generators + diff (harness/*.cpp, checks/*.py), g++ 12.2",
     "the hand-written Gallina model is tied to /repo only by the correspondence run of this check",
 ]
+
+
+# ---------------------------------------------------------------- generic differential runner
+
+def _run_pair(args):
+    harness_cmd, driver_cmd, text, timeout = args
+    pi = subprocess.run(harness_cmd, input=text, capture_output=True, text=True, timeout=timeout)
+    impl = pi.stdout.split("\n")
+    if driver_cmd is None:
+        return impl, None, pi.returncode, pi.stderr[-2000:]
+    pm = subprocess.run(driver_cmd, input=text, capture_output=True, text=True, timeout=timeout)
+    return impl, pm.stdout.split("\n"), pi.returncode, pi.stderr[-2000:]
+
+
+def run_both(harness_cmd, driver_cmd, lines, timeout=3000, chunk=4000):
+    """feeds the same case lines to the C++ harness and to the extracted model, in parallel chunks;
+    returns (impl_lines, model_lines) aligned with `lines` ('<missing>' where a process died)"""
+    from multiprocessing.pool import ThreadPool
+    n = len(lines)
+    nchunks = max(1, min(NCPU, n // chunk + 1))
+    size = (n + nchunks - 1) // nchunks
+    parts = [lines[i:i + size] for i in range(0, n, size)]
+    with ThreadPool(nchunks) as p:
+        res = p.map(_run_pair, [(harness_cmd, driver_cmd, "\n".join(pt) + "\n", timeout) for pt in parts])
+    impl, model, errs = [], [], []
+    for pt, (il, ml, rc, err) in zip(parts, res):
+        il = il[:len(pt)] + ["<missing>"] * max(0, len(pt) - len(il))
+        # a trailing empty string after the final newline is not a result line
+        if len(il) >= len(pt) and rc not in (0,):
+            errs.append((rc, err))
+        impl += [x if x != "" or True else x for x in il[:len(pt)]]
+        if ml is not None:
+            ml = ml[:len(pt)] + ["<missing>"] * max(0, len(pt) - len(ml))
+            model += ml[:len(pt)]
+    return impl, (model if driver_cmd is not None else None), errs
+
+
+def harness_gen(harness, args, timeout=1200):
+    r = subprocess.run([harness, "gen"] + [str(a) for a in args], capture_output=True, text=True, timeout=timeout)
+    if r.returncode != 0:
+        raise BuildError("generator failed: %s %s\n%s" % (harness, args, r.stderr[-1000:]))
+    return [l for l in r.stdout.split("\n") if l]
+
+
+def corpus(prop, prefix):
+    p = os.path.join(ROOT, "corpus", prop, "cases.txt")
+    if os.path.exists(p):
+        return [l.strip() for l in open(p) if l.startswith(prefix)]
+    return []
